@@ -440,6 +440,9 @@ def localpart_rules(ctx, w):
                 continue
             n += 1
             conds = [(D.show_atom(a), t) for a, t in p.conds]
+            for c in CHECKS:             # `check(localpart)` returned as the validator's own result: accepted iff the check is Ok
+                if D.show(p.ret).startswith(c + "("):
+                    conds.append((D.show(p.ret) + " is Ok", True))
             sigil = next((re.search(r"validate_id\(s, (\d+)\)", a).group(1) for a, t in conds if re.search(r"validate_id\(s, (\d+)\) is Ok", a) and t), "?")
             why = None
             # whole-string NUL test
